@@ -21,7 +21,7 @@ DEMO_MUT=pass
 cargo test --offline $FEAT --test seeded_demo >"$LAB/demo-mut.log" 2>&1 || DEMO_MUT=fail
 rm -f tests/seeded_demo.rs; rmdir tests 2>/dev/null
 SUITE=pass
-cargo test --workspace --no-fail-fast --offline >"$LAB/suite.log" 2>&1 || SUITE=fail
+timeout 600 cargo test --workspace --no-fail-fast --offline >"$LAB/suite.log" 2>&1 || SUITE=fail   # (a suite that hangs counts as failing)
 RES=""
 for ID in $IDS; do
     ( unset CARGO_TARGET_DIR; cd "$LAB/verif" && VERIF_NO_REGRESS=${VERIF_NO_REGRESS-1} ./bin/check "$ID" "$TIER" >"$LAB/check-$NAME-$ID.log" 2>&1 )
